@@ -77,6 +77,7 @@ CONT = [
     ("liesel", "IWLS", ["log_sigma"], [0.5, 1.0]),
     ("liesel", "IWLS", ["mu", "beta"], [1.0]),
     ("liesel", "MH", ["mu"], [0.6]),
+    ("liesel", "RW", ["offset"], [0.4]),
 ]
 
 HAM = [
@@ -301,7 +302,7 @@ class Target:
             self.model = kl.build_liesel_model()
             self.interface = gs.LieselInterface(self.model)
             self.state0 = self.model.state
-            self.full0 = {p: np.asarray(self.state0[f"{p}_value"].value, dtype=np.float64) for p in kl.PARAMS}
+            self.full0 = {p: np.asarray(self.state0[kl.param_node(p)].value, dtype=np.float64) for p in kl.PARAMS}
             self._lp = lambda full: kl.ref_liesel(full)["_model_log_prob"]
         else:
             self.model = None
